@@ -51,6 +51,7 @@ func (z *zoo) nodeVOpt(key string) func(ctx context.Context, in V, opts ...lopt)
 		see(ctx, "node "+key, in.String())
 		o := applyOpts(ctx, key, opts)
 		jitter(ctx, z.sched, key)
+		maybeCancel(ctx, key)
 		return V{ID: in.ID, N: in.N, Lim: in.Lim, H: in.H + ">" + key + o}, nil
 	}
 }
@@ -280,15 +281,21 @@ func buildPregel(r *lib.Rng, z *zoo) (*object, error) {
 			if sp.Opt&optMaxSteps != 0 {
 				max = 5
 			}
-			return callTerm(vR(selfTag, 0, lims[sp.In%len(lims)], fmt.Sprintf("in%d", sp.In)),
+			t := callTerm(vR(selfTag, 0, lims[sp.In%len(lims)], fmt.Sprintf("in%d", sp.In)),
 				mWithShared(sp.Opt, mshared, append(mLambdaOpts(si, sp.Opt, des...), mBadPathOpt(sp.Opt, "nosuch")...)), max)
+			if sp.Opt&optCancel != 0 && sp.Opt&optBadPath == 0 {
+				t = cancelAt(t, 1) // node a, the only node of superstep 0, cancels the call's context
+			}
+			return t
 		},
 		kind: "pregel", shape: []string{fmt.Sprintf("width:%d", w), fmt.Sprintf("failing:%v", failing)},
 		nIn: len(lims), paras: allParas,
 		optSet: []int{0, optLambdaDesignated, optLambdaGlobal, optCbGlobal, optCbThree | optCbDesignated, optMaxSteps,
 			optMaxSteps | optCbGlobal, optCtxHandlers, optCtxHandlers | optCbDesignated | optLambdaDesignated,
-			optShared, optShared | optLambdaDesignated | optCbGlobal, optShared | optMaxSteps, optBadPath, optBadPath | optCbGlobal | optLambdaGlobal},
-		baseCtx: sharedCtx,
+			optShared, optShared | optLambdaDesignated | optCbGlobal, optShared | optMaxSteps, optBadPath, optBadPath | optCbGlobal | optLambdaGlobal,
+			optCancel, optCancel | optCbGlobal | optLambdaDesignated, optCancel | optShared},
+		cancelKey: "a",
+		baseCtx:   sharedCtx,
 		call: func(ctx context.Context, rc *callRec, sp spec) string {
 			in := V{ID: rc.tag, Lim: lims[sp.In%len(lims)], H: fmt.Sprintf("in%d", sp.In)}
 			opts := append(lambdaOpts(rc, sp.Opt, des...), cbOptions(rc, sp.Opt, cbPar)...)
@@ -489,6 +496,9 @@ const (
 	// ... and the input on which it panics (spec input 5)
 	wfPanicA = "a5"
 	wfPanicB = "b35"
+	// ... and the input on which it cancels the context of its call and returns normally (spec input 6)
+	wfCancelA = "a6"
+	wfCancelB = "b42"
 )
 
 type WOut struct {
@@ -560,7 +570,7 @@ func buildWorkflow(r *lib.Rng, z *zoo) (*object, error) {
 			runtime.Gosched()
 		}
 	}
-	faulty := func(a string) bool { return a == wfBadA || a == wfPanicA }
+	faulty := func(a string) bool { return a == wfBadA || a == wfPanicA || a == wfCancelA }
 	wf := compose.NewWorkflow[WIn, WOut]()
 	wf.AddLambdaNode("l", compose.InvokableLambdaWithOption(func(ctx context.Context, in WLeft, opts ...lopt) (string, error) {
 		ev(ctx, "n:l")
@@ -578,7 +588,7 @@ func buildWorkflow(r *lib.Rng, z *zoo) (*object, error) {
 		ev(ctx, "n:r")
 		see(ctx, "node r", in)
 		jitter(ctx, z.sched, "r")
-		if in == wfBadB || in == wfPanicB {
+		if in == wfBadB || in == wfPanicB || in == wfCancelB {
 			park(ctx, true)
 		} else {
 			letGo(ctx)
@@ -596,6 +606,10 @@ func buildWorkflow(r *lib.Rng, z *zoo) (*object, error) {
 			}
 			if in == wfPanicA {
 				panic("guard c gives up")
+			}
+			if in == wfCancelA {
+				maybeCancel(ctx, "c") // the run finds its context cancelled when it has collected c
+				return "c(" + in + ")", nil
 			}
 			return "", &nodeErr{"c"}
 		}
@@ -649,11 +663,16 @@ func buildWorkflow(r *lib.Rng, z *zoo) (*object, error) {
 	return &object{
 		desc: d, roots: []any{run, wf, shared}, proj: run,
 		mcall: func(sp spec, si int) string {
-			return callTerm(vM("A", vS(fmt.Sprintf("a%d", sp.In)), "B", vS(fmt.Sprintf("b%d", sp.In*7)), "ID", vS(selfTag)),
+			t := callTerm(vM("A", vS(fmt.Sprintf("a%d", sp.In)), "B", vS(fmt.Sprintf("b%d", sp.In*7)), "ID", vS(selfTag)),
 				mWithShared(sp.Opt, mshared, mLambdaOpts(si, sp.Opt, "l", "m")), 0)
+			if sp.In == 6 {
+				t = cancelAt(t, 1) // the guard cancels the call's context during the first superstep
+			}
+			return t
 		},
 		kind: "workflow", shape: []string{"wf:mapped+guard"},
-		nIn: 6, paras: allParas, faultIn: []int{4, 5},
+		nIn: 7, paras: allParas, faultIn: []int{4, 5, 6},
+		cancelKey: "c", wantsCancel: func(sp spec) bool { return sp.In == 6 },
 		optSet:  []int{0, optLambdaDesignated, optLambdaGlobal, optCbGlobal, optCbThree | optCbDesignated, optCtxHandlers, optShared, optShared | optLambdaGlobal | optCbDesignated},
 		baseCtx: sharedCtx,
 		call: func(ctx context.Context, rc *callRec, sp spec) string {
